@@ -157,6 +157,13 @@ def gen_script(rnd):
             x, y = rnd.choice(names), rnd.choice(names)
             lines.append("r%d = %s" % (j, rnd.choice(["%s * %s" % (x, y), "%s + %s" % (x, y), "%s * %s - %s" % (x, y, x)])))
         names.append("r%d" % j)
+    if rnd.random() < 0.2:
+        # the proving step is not a one-shot: an explicit prove() in the middle, the exit hook proves again at the end
+        lines.append("qb.prove()")
+        shapes.add("explicit-prove-midway")
+        x, y = rnd.choice(names), rnd.choice(names)
+        lines.append("mid = %s * %s" % (x, y))
+        names.append("mid")
     for j in range(rnd.randint(0, 2)):
         lines.append("o%d = (%s).val()" % (j, rnd.choice(names)))
     if rnd.random() < 0.6:
@@ -331,8 +338,10 @@ def validate(R, qap, wd, src, cell, err, rc, digests):
             got = sorted(qap.canon_line(x) for x in ft.splitlines() if x.strip())
             first = lst[0][1]
             if got != first:
-                missing = [x for x in first if x not in got]
-                extra = [x for x in got if x not in first]
+                import collections
+                cf, cg = collections.Counter(first), collections.Counter(got)
+                missing = list((cf - cg).elements())
+                extra = list((cg - cf).elements())
                 problems.append(("function-file-differs", "pysnark_eqs_%s differs from the equations of call %s: missing %s extra %s" % (
                     fn, lst[0][0], missing[:2], extra[:2])))
             for call, want in lst[1:]:
@@ -340,7 +349,8 @@ def validate(R, qap, wd, src, cell, err, rc, digests):
                     problems.append(("inconsistent-calls-not-reported", "calls %s and %s of %s have different equation sets and no inconsistency was reported" % (
                         lst[0][0], call, fn)))
             h = hashlib.md5("\n".join(first).encode()).hexdigest()
-            for ln in err.splitlines():
+            last_round = err[err.rfind("*** qaptools subroutines:"):]      # digests printed by the final proving step only
+            for ln in last_round.splitlines():
                 if ln.startswith("***    id:") and (" function: %s " % fn) in ln:
                     dg = ln.split("digest:")[1].split()[0]
                     digests.append([dg, h])
